@@ -4,7 +4,10 @@
      G.1  key pair: Q = d G                                  G.2, G.3  signatures: Verify accepts them, rejects an altered S0,
      G.2  Sign with the nonce recovered from the signature reproduces it     an altered public key is not a point
      G.6, G.7  deterministic nonce (alg. 6.3.3) equals the k implied by the appendix signature data
-     G.4, G.5  key tokens unwrap to the transported keys     laws: wrap -> unwrap, DH symmetry, sampling boundaries *)
+     G.4, G.5  key tokens unwrap to the transported keys     laws: wrap -> unwrap, DH symmetry, sampling boundaries
+     G.8  identity key pair extracted from the signature of G.2 (appendix B.2.3)
+     G.9, G.10  identity-based signatures: IdVerify accepts them, IdSign with the implied nonce reproduces them, the
+     point V of B.2.5 as written equals its one-pass evaluation; altered S0 / S1 / H0 / H / R are rejected *)
 EXTENDS Bign, TLC
 
 P == Params128
@@ -20,6 +23,14 @@ K6 == LEHex("829614D8411DBBC4E1F2471A4004586440FD8C9553FAB6A1A45CE417AE97111E")
 K7 == LEHex("7ADC8713283EBFA547A2AD9CDFB245AE0F7B968DF0F91CB785D1F932A3583107")
 TOK4 == HexOct("9B4EA669DABDF100A7D4B6E6EB76EE5251912531F426750AAC8A9DBB51C54D8DEB9289B50A46952D0531861E45A8814B008FDC65DE9FF1FA2A1F16B6A280E957A814")
 TOK5 == HexOct("4856093A0F6C13015FC8E15F1B23A76202D2F4BA6E5EC52B78658477F6486DE687AFAEEA0EF7BC1326A7DCE7A10BA10E3F91C0126044B22267BF30BD6F1DA29E0647CF39C1D59A56BB0194E0F4F8A2BB")
+R8O == HexOct("CCEEF1A313A406649D15DA0A851D486A695B641B20611776252FFDCE39C710607C9EA1F33C23D20DFCB8485A88BE6523A28ECC3215B47FA289D6C9BE1CE837C0")
+E8 == LEHex("79628979DF369BEB94DEF3299476AED414F39148AA69E31A7397E8AA70578AB3")
+IDSIG9 == HexOct("1697FE6A073D3B28C9D0DD832A169D7B8D342FDC47BC8AAEB6226448956E22D6CC73B62CB21B66E5C8DE0A3E234FB0C6")
+IDSIG10 == HexOct("31CBA14FC2D79AFCD8F50E29F993FC2CB270BD0A79D534B3B120791400C8BB1850AD6D3C78047FCB46F18608AC7006AA")
+H9 == BM!Hash(BH(32, 16))
+H10 == BM!Hash(BH(32, 23))
+\* the nonce an identity-based signature implies:  k = S1 + (S0 + 2^l) e + H  (mod q)
+KOfId(sig, H) == Mod(Add(Add(SigS1Num(P, sig), Mul(Add(SigS0Num(P, sig), PowL(P)), E8)), Num(H)), P.q)
 \* the nonce a signature (S0 || S1) implies:  k = S1 + (S0 + 2^l) d + H  (mod q)
 KOf(sig, H) == LET S0 == Num(SubSeq(sig, 1, 16))  S1 == Num(SubSeq(sig, 17, 48))
                IN Mod(Add(Add(S1, Mul(Add(S0, PowL(P)), D1)), Num(H)), P.q)
@@ -54,7 +65,32 @@ Vec(v) ==
     [] v = 17 -> \A l \in {128, 192, 256} : LET Q == Params(l) IN
                    BitLen(Q.p) = 2 * l /\ BitLen(Q.q) = 2 * l /\ Q.no = l \div 4 /\ Get(Q.p, 1) % 4 = 3
                    /\ EB!IsPoint(Curve(Q), G(Q)) /\ EB!IsSmooth(Curve(Q)) /\ Q.a = Norm(Sub2(Q.p, OfInt(3)))
-NVec == 17
+    \* ---- appendix B (tables G.8 - G.10)
+    [] v = 18 -> IdExtract(P, OID, H2, SIG2, QO) = [st |-> "ok", e |-> E8, R |-> PtOf(P, R8O)] /\ IdPrivOf(P, H2, SIG2) = E8
+    [] v = 19 -> IdVerify(P, OID, H2, H9, IDSIG9, R8O, QO) = "ok"
+    [] v = 20 -> IdVerify(P, OID, H2, H10, IDSIG10, R8O, QO) = "ok"
+    [] v = 21 -> LET V == IdVerifyV(P, OID, H2, H9, IDSIG9, R8O, QO)
+                 IN V = IdVerifyV2(P, OID, H2, H9, IDSIG9, R8O, QO) /\ HashL2(P, OID, V, H2, H9) = SubSeq(IDSIG9, 1, 16)
+    [] v = 22 -> IdSign(P, OID, H2, H9, E8, KOfId(IDSIG9, H9)) = IDSIG9
+    [] v = 23 -> IdSign(P, OID, H2, H10, E8, KOfId(IDSIG10, H10)) = IDSIG10
+    [] v = 24 -> IdVerify(P, OID, H2, H9, Flip(IDSIG9, 1), R8O, QO) = "sig"
+    [] v = 25 -> IdVerify(P, OID, H2, H9, Flip(IDSIG9, 17), R8O, QO) = "sig"
+    [] v = 26 -> IdVerify(P, OID, Flip(H2, 1), H9, IDSIG9, R8O, QO) = "sig"
+    [] v = 27 -> IdVerify(P, OID, H2, Flip(H9, 32), IDSIG9, R8O, QO) = "sig"
+    [] v = 28 -> /\ IdVerify(P, OID, H2, H9, IDSIG9, Flip(R8O, 1), QO) = "pubkey" /\ IdVerify(P, OID, H2, H9, IDSIG9, R8O, Flip(QO, 33)) = "pubkey"
+                 /\ IdVerify(P, <<6, 0>>, H2, H9, IDSIG9, R8O, QO) = "oid" /\ IdVerify(P, OID, H2, H9, SubSeq(IDSIG9, 1, 47), R8O, QO) = "sig"
+                 /\ IdVerify(P, OID, H2, H9, SubSeq(IDSIG9, 1, 16) \o Oct(P.q, 32), R8O, QO) = "sig"
+                 /\ IdExtract(P, OID, H2, SIG2, Flip(QO, 1)).st = "pubkey" /\ IdExtract(P, <<>>, H2, SIG2, QO).st = "oid"
+                 /\ IdExtract(P, OID, H2, SubSeq(SIG2, 1, 16) \o Oct(P.q, 32), QO).st = "sig"
+    [] v = 29 -> IdExtract(P, OID, Flip(H2, 1), SIG2, QO).st = "sig"
+    \* another point of the curve in the place of the identity key: R' = 2 G
+    [] v = 30 -> IdVerify(P, OID, H2, H9, IDSIG9, PtOct(P, PubkeyOf(P, Two)), QO) = "sig"
+    \* the signing equation of B.2.4 for the boundary keys e = 0, 1, q - 1:  S1 + H + (S0 + 2^l) e = k (mod q)
+    [] v = 31 -> \A e \in {Zero, One, QM1} : \A hk \in {<<Zeros(32), One>>, <<Rep(32, 255), Two>>, <<Oct(P.q, 32), QM1>>} :
+                   LET s1 == S1Of(P, OfInt(77), hk[1], e, hk[2])
+                   IN /\ Less(s1, P.q) /\ Mod(Add(Add(s1, Num(hk[1])), Mul(Add(OfInt(77), PowL(P)), e)), P.q) = hk[2]
+                      /\ (e = Zero => s1 = SubMod(hk[2], Mod(Num(hk[1]), P.q), P.q))
+NVec == 31
 VARIABLES phase, v, ok
 Init == phase = 0 /\ v = 0 /\ ok = TRUE
 Next == \/ phase = 0 /\ phase' = 1 /\ v' \in 1..NVec /\ ok' = TRUE
